@@ -24,10 +24,11 @@ func init() {
 }
 
 type c09Case struct {
-	Offence string `json:"offence"`
-	Split   bool   `json:"split"` // offending header block continued in a CONTINUATION frame
-	Order   []int  `json:"order"` // interleaving of tracks 0 (V1) and 1 (X)
-	Finish  []int  `json:"finish"`
+	Offence   string `json:"offence"`
+	Split     bool   `json:"split"`      // offending header block continued in a CONTINUATION frame
+	FinishMid bool   `json:"finish_mid"` // a victim's handler returns between the offending HEADERS and its CONTINUATION
+	Order     []int  `json:"order"`      // interleaving of tracks 0 (V1) and 1 (X)
+	Finish    []int  `json:"finish"`
 }
 
 var c09Offences = []string{
@@ -36,6 +37,7 @@ var c09Offences = []string{
 	"peer-rst-before-body", "peer-rst-mid-body", "peer-rst-handler-running", "peer-rst-flow-blocked",
 	"handler-panic", "window-update-0", "window-update-overflow",
 	"inflight-data", "inflight-trailers", "inflight-trailers-continuation", "inflight-window-update",
+	"refused-after-malformed-with-size-update", "inflight-trailers-with-size-update",
 }
 
 // ins are the fields whose insertion into the dynamic table the victims rely on.
@@ -158,6 +160,34 @@ func (x *c09Run) offender(cs c09Case) (tr []tframe, after func()) {
 	case "refused":
 		// the caller opens two gated streams first so that this one is over the limit
 		tr = append(block(good(), false), data("in-flight-1", false), data("in-flight-2", true))
+	case "refused-after-malformed-with-size-update":
+		// an earlier malformed stream, then (over the limit) a refused one whose block opens with a
+		// dynamic table size update
+		mal := block(with(1, ref.Field{Name: "X-Upper", Value: "v"}), true)
+		var sid uint32
+		var rfr [2][]byte
+		tr = append(mal, tframe{f: func() []peer.Frame {
+			sid = x.newID()
+			pre := h.PeerEnc.SizeUpdate(2048)
+			fs := harness.ReqFields("POST", "https", "h", "/x2", [2]string{"x-sid", fmt.Sprint(sid)})
+			fs = append(fs, ref.Field{Name: "x-ins-c", Value: "c-x"})
+			blk := append(pre, h.PeerEnc.Block(fs, nil)...)
+			if cs.Split {
+				rfr = [2][]byte{blk[:len(pre)+3], blk[len(pre)+3:]}
+				return []peer.Frame{peer.Headers(sid, rfr[0], peer.HeadersOpt{EndStream: true, Pad: -1})}
+			}
+			return []peer.Frame{peer.Headers(sid, blk, peer.HeadersOpt{EndStream: true, EndHeaders: true, Pad: -1})}
+		}})
+		if cs.Split {
+			tr = append(tr, tframe{cont: true, f: func() []peer.Frame { return []peer.Frame{peer.Continuation(sid, rfr[1], true)} }})
+		}
+	case "inflight-trailers-with-size-update":
+		tr = append(block(with(0, ref.Field{Name: "X-Upper", Value: "v"}), false), data("a", false))
+		tr = append(tr, tframe{f: func() []peer.Frame {
+			pre := h.PeerEnc.SizeUpdate(1024)
+			blk := append(pre, h.PeerEnc.Block([]ref.Field{{Name: "x-ins-t", Value: "t"}}, nil)...)
+			return []peer.Frame{peer.Headers(id, blk, peer.HeadersOpt{EndStream: true, EndHeaders: true, Pad: -1})}
+		}})
 	case "peer-rst-before-body":
 		tr = append(block(good(), false), tframe{f: func() []peer.Frame { return []peer.Frame{peer.RstStream(id, 8)} }})
 	case "peer-rst-mid-body":
@@ -222,7 +252,10 @@ func c09Exec(cs c09Case) (*fw.Violation, *harness.Server, int) {
 	if cs.Split {
 		shape += "+continuation"
 	}
-	if cs.Offence == "refused" {
+	if cs.FinishMid {
+		shape += "+handler-returns-mid-block"
+	}
+	if cs.Offence == "refused" || cs.Offence == "refused-after-malformed-with-size-update" {
 		// two extra gated streams take the remaining slots (V1 holds the third)
 		for i := 0; i < 2; i++ {
 			for _, t := range x.victim(fmt.Sprintf("g%d", i), nil, false) {
@@ -254,12 +287,20 @@ func c09Exec(cs c09Case) (*fw.Violation, *harness.Server, int) {
 			if pos[t] >= len(tracks[t]) || !tracks[t][pos[t]].cont {
 				break
 			}
+			if cs.FinishMid && t == 1 && pos[t] == len(tracks[t])-1 {
+				// no frame may come between HEADERS and CONTINUATION, but a handler may return
+				for _, c := range h.Calls {
+					if !c.Returned && !strings.HasPrefix(c.Req.URI, "/g1") {
+						h.Finish(c.Idx, harness.Resp{Status: 200, Body: []byte("ok"), Headers: [][2]string{{"X-R", "r"}}})
+					}
+				}
+			}
 		}
 	}
 	if after != nil {
 		after()
 	}
-	if cs.Offence == "refused" {
+	if cs.Offence == "refused" || cs.Offence == "refused-after-malformed-with-size-update" {
 		// a slot-holder finishes, so that there is room for V2
 		for _, c := range h.Calls {
 			if strings.HasPrefix(c.Req.URI, "/g0") && !c.Returned {
@@ -271,6 +312,9 @@ func c09Exec(cs c09Case) (*fw.Violation, *harness.Server, int) {
 	refs := c09Ins("x")
 	if strings.HasPrefix(cs.Offence, "inflight-trailers") {
 		refs = append(refs, ref.Field{Name: "x-ins-t", Value: "t"})
+	}
+	if cs.Offence == "refused-after-malformed-with-size-update" {
+		refs = append(refs, ref.Field{Name: "x-ins-c", Value: "c-x"})
 	}
 	for _, t := range x.victim("v2", refs, false) {
 		h.SendFrames(t.f()...)
@@ -388,11 +432,11 @@ func runC09(c *fw.Ctx) {
 			}
 			harness.Interleavings([]int{3, nx}, func(order []int) bool {
 				ord := append([]int{}, order...)
-				if off == "refused" && ord[0] != 0 {
+				if strings.HasPrefix(off, "refused") && ord[0] != 0 {
 					return true // V1 has to hold its slot before X arrives
 				}
 				fins := [][]int{{0, 1}, {1, 0}}
-				if off == "refused" {
+				if strings.HasPrefix(off, "refused") {
 					fins = [][]int{{0, 1, 2, 3}, {3, 2, 1, 0}, {1, 3, 0, 2}}
 					if thorough {
 						fins = permutations(4)
@@ -403,6 +447,9 @@ func runC09(c *fw.Ctx) {
 						continue
 					}
 					cs := c09Case{Offence: off, Split: split, Order: ord, Finish: fin}
+					if split && (item%2 == 0) {
+						cs.FinishMid = true
+					}
 					v, h, _ := c09Exec(cs)
 					js, _ := json.Marshal(cs)
 					c.Eval(nt(true, js))
